@@ -69,7 +69,7 @@ class RefDevice(ICommInterface):
     """
 
     def __init__(self, chans, flags=3, rxpadding=0, policy=None,
-                 streaming=False, idle_sleep=0.0002, ack_delay=0.0):
+                 streaming=False, idle_sleep=0.0002, ack_delay=0.0, codec=None):
         super().__init__()
         self.chans = [dict(c) for c in chans]
         self.flags = flags
@@ -84,6 +84,7 @@ class RefDevice(ICommInterface):
         self.stopped = 0
         self.raw_writes = []
         self.idle_sleep = idle_sleep
+        self.codec = codec or rc          # anything with wire(fid, payload) and scan(bytes)
         self.ack_delay = ack_delay
         self.applied = 0          # number of enable/div/start requests applied so far
         self.state_lock = threading.Lock()
@@ -105,6 +106,9 @@ class RefDevice(ICommInterface):
         time.sleep(self.idle_sleep)
         return b""
 
+    def _ack(self, ret):
+        return self.codec.wire(rc.ID_ACK, list((ret & 0xFFFFFFFF).to_bytes(4, "little")))
+
     def push(self, data):
         with self.rxlock:
             self.rx.append(bytes(data))
@@ -121,7 +125,7 @@ class RefDevice(ICommInterface):
 
     def _write(self, data):
         self.raw_writes.append(bytes(data))
-        frames, _ = rc.scan(data)
+        frames, _ = self.codec.scan(data)
         for fid, payload in frames:
             self._request(fid, payload)
 
@@ -143,21 +147,21 @@ class RefDevice(ICommInterface):
             self.push(act[1])
             return
         if isinstance(act, tuple) and act[0] == "wrongframe":
-            self.push(rc.wire(rc.ID_ACK, [0, 0, 0, 0]) if kind in (
-                "cmninfo", "chinfo") else rc.cmninfo(1, 0, 0))
+            self.push(self.codec.wire(rc.ID_ACK, [0, 0, 0, 0]) if kind in (
+                "cmninfo", "chinfo") else self.codec.wire(rc.ID_CMNINFO, [1, 0, 0]))
             return
         if isinstance(act, tuple) and act[0] == "nack":
             if self.ack_supported:
-                self.push(rc.ack(act[1]))
+                self.push(self._ack(act[1]))
             return
         # "ok" or "lostack": apply
         if kind == "cmninfo":
-            self.push(rc.cmninfo(len(self.chans), self.flags, self.rxpadding))
+            self.push(self.codec.wire(rc.ID_CMNINFO, [len(self.chans), self.flags, self.rxpadding]))
             return
         if kind == "chinfo":
             c = self.chans[payload[0]]
-            self.push(rc.chinfo(c["en"], c["typ"], c["vdim"], c["div"],
-                                c["mlen"], c["name"]))
+            self.push(self.codec.wire(rc.ID_CHINFO, [1 if c["en"] else 0, c["typ"], c["vdim"], c["div"], c["mlen"]]
+                                      + list(c["name"])))
             return
         with self.state_lock:
             if kind == "start":
@@ -174,9 +178,9 @@ class RefDevice(ICommInterface):
             self.applied += 1
         if self.ack_supported and act != "lostack":
             if self.ack_delay:
-                threading.Timer(self.ack_delay, self.push, args=(rc.ack(0),)).start()
+                threading.Timer(self.ack_delay, self.push, args=(self._ack(0),)).start()
             else:
-                self.push(rc.ack(0))
+                self.push(self._ack(0))
 
 
 def simple_chans(n, typ=2, vdim=1):
